@@ -15,6 +15,7 @@ import pandas as pd
 
 from harness import common as C
 from harness import election as E
+from harness import extract as X
 
 PROP = "C04"
 MODULES = ["ElexModel.Props.C04"]
@@ -30,7 +31,8 @@ ASSUMPTIONS = ["weights (baseline + 1) are positive", "0 < alpha < 1 and n_cal l
 RULE = (
     "(a) 1-40 calibration units, scores dyadic with ties and negatives, integer weights (half of the cases with a power-of-two total so "
     "that cumulative shares are exact and can hit the level exactly), levels dyadic or alpha(1+1/n); (b) generated elections through "
-    "the real split, features none / one / two, both robust settings; non-trivial = at least two distinct scores; distinct = sha1"
+    "the real split, features none / one / two, both robust settings; (c) n + 1 scores with equal weights, each left out in turn "
+    "(order-statistic and covered-count statements); non-trivial = at least two distinct scores; distinct = sha1"
 )
 EPS = Fraction(1, 10**9)
 
@@ -130,6 +132,66 @@ def direct(run, driver, n):
         run.traces += 1
 
 
+def leave_one_out(run, driver, n):
+    """equal weights: the correction is the order statistic of rank floor(q n) + 1 (`equal_weights_rank`), and over any n + 1 scores
+    strictly more than alpha (n + 1) are covered by the correction computed from the other n (`split_conformal_count`)"""
+    model = np_model()
+    rng = run.rng
+    ops, meta = [], []
+    for _ in range(n):
+        k = rng.choice([2, 3, 4, 5, 7, 8, 12, 16, 25])  # calibration units
+        alpha = rng.choice([0.5, 0.6, 0.7, 0.75, 0.8, 0.9])
+        qf = alpha * (1 + 1 / k)
+        if not qf < 1:
+            continue
+        q = C.frac(qf)
+        w = rng.choice([1, 3, 250])
+        scores = [Fraction(rng.randint(-30, 30), rng.choice([1, 2, 4, 8])) for _ in range(k + 1)]
+        if rng.random() < 0.5:
+            for i in rng.sample(range(k + 1), (k + 1) // 2):
+                scores[i] = scores[0]
+        case = {"leave_one_out": True, "scores": [str(s) for s in scores], "alpha": alpha, "n_cal": k, "weight": w}
+        run.case(case, len(set(scores)) > 1)
+        run.count("leave-one-out (equal weights)")
+        h = q * k
+        if 0 < abs(h - round(h)) < EPS:
+            run.boundary_skipped += 1
+            continue
+        cov, corrs = 0, []
+        ok = True
+        for i in range(k + 1):
+            others = scores[:i] + scores[i + 1:]
+            df = pd.DataFrame({"last_election_results_x": [float(w)] * k})
+            c = model._compute_population_correction(df, pd.Series([float(s) for s in others]), float(q), "x")
+            c = C.frac(c)
+            corrs.append(c)
+            want = sorted(others)[math.floor(h)]
+            if c != want:
+                run.violation("equal weights: the correction is not the score of rank floor(q n) + 1", input=case,
+                              impl={"left_out": i, "correction": str(c)}, expected=str(want), predicate="equal_weights_rank",
+                              signature="C04:rank")
+                ok = False
+                break
+            cov += scores[i] <= c
+        if not ok:
+            continue
+        if not cov > C.frac(alpha) * (k + 1):
+            run.violation("fewer than alpha (n + 1) of n + 1 scores are covered by the correction computed from the others",
+                          input=case, impl={"covered": cov, "corrections": [str(c) for c in corrs]},
+                          expected="> " + str(float(C.frac(alpha) * (k + 1))), predicate="split_conformal_count",
+                          signature="C04:count")
+        ops.append({"op": "conf.loo", "scores": [C.rat(s) for s in scores], "q": C.rat(q)})
+        meta.append((case, cov, corrs))
+    if driver is None or not ops:
+        return
+    for (case, cov, corrs), o in zip(meta, driver.run(ops)):
+        mc = [None if x is None else C.unrat(x) for x in o["corr"]]
+        if mc != corrs or o["count"] != cov:
+            run.diff("leave-one-out corrections / covered count vs model", input=case, impl=[[str(c) for c in corrs], cov],
+                     model=[o["corr"], o["count"]])
+        run.traces += 1
+
+
 def end_to_end(run, driver, n):
     C.use_repo()
     from elexmodel.handlers.data.CombinedData import CombinedDataHandler
@@ -222,10 +284,15 @@ def end_to_end(run, driver, n):
         run.traces += 1
 
 
+def extract(run):
+    return X.generate("C04")
+
+
 def explore(run, driver, budget):
     run.info["rule"] = RULE
-    n = {"quick": (400, 25), "thorough": (20000, 600), "search": (3000, 120)}[budget]
+    n = {"quick": (400, 25, 60), "thorough": (20000, 600, 2500), "search": (3000, 120, 400)}[budget]
     direct(run, driver, n[0])
+    leave_one_out(run, driver, n[2])
     end_to_end(run, driver, n[1])
 
 
